@@ -171,3 +171,37 @@ def run_repo_tests(ctx, props, packages=None):
     cov["binding_demo"] = binding_demo(ctx, files, "repo_tests_actor_trace")
     cov["distributor_trace"] = validate_distributors(ctx, files, "repo_tests")
     return cov
+
+
+def long_lived_actors(ctx, props, own_c02=False):
+    """Long random request streams on single real keyspace actors (h-ec actor-random): both sources, three origins, purges,
+    storage calls that fail part-way, a clock that jumps by more than the forgiveness period, late and too-old requests.
+    What an actor keeps between requests stays in it (the edge-complete replay starts every transition on a fresh actor).
+    The recorded events go to Trace_KeyspaceActor.tla (`props`); with own_c02 the harness' own comparison of set and storage
+    after every request is judged as C02."""
+    binary = vlib.build_harness(ctx, "h-ec")
+    trace_dir = ctx.path("long-actors-trace")
+    shutil.rmtree(trace_dir, ignore_errors=True)
+    os.makedirs(trace_dir)
+    out = ctx.path("long_actors.json")
+    n_actors = 60 if ctx.tier == "quick" else 600
+    vlib.run_harness(ctx, [binary, "actor-random", "--actors", str(n_actors), "--len", "150", "--seed", str(ctx.seed), "--out", out],
+                     timeout=3000, env={"DATACAKE_VERIF_TRACE_DIR": trace_dir})
+    rep = vlib.load_json(out)
+    for need in ("failed_storage_calls", "effective_purges", "failed_purges", "clock_jumps"):
+        if rep.get(need, 0) == 0:
+            raise vlib.ToolError("vacuous long-lived actor run: %s = 0" % need)
+    if own_c02:
+        for v in rep["violations"][:3]:
+            ctx.violations.append(dict(engine="h-ec actor-random (set vs storage after every request)", **v))
+    cov = validate(ctx, actor_trace.files_in(trace_dir), "long_actors", props, max_events=None)
+    cov["binding_demo"] = binding_demo(ctx, None, "long_actors")
+    shutil.rmtree(trace_dir, ignore_errors=True)
+    cov.update({k: rep[k] for k in ("actors", "requests", "failed_storage_calls", "purges", "effective_purges", "failed_purges", "clock_jumps",
+                                    "too_old_requests")})
+    cov["set_vs_storage_disagreements"] = rep["violation_count"]
+    ctx.log("long-lived actors: %d actors, %d requests (%d storage calls failed part-way, %d purges of which %d removed tombstones and %d met a "
+            "storage failure, %d clock jumps): set and storage disagreed %d times" % (
+                rep["actors"], rep["requests"], rep["failed_storage_calls"], rep["purges"], rep["effective_purges"], rep["failed_purges"],
+                rep["clock_jumps"], rep["violation_count"]))
+    return cov
